@@ -1,10 +1,10 @@
 package props
 
 import (
-	"sort"
 	"fmt"
 	"go/constant"
 	"go/types"
+	"sort"
 	"strings"
 
 	"golang.org/x/tools/go/ssa"
